@@ -75,7 +75,7 @@ CHECKS = {
     'C20': dict(
         engine='formula',
         technique='Lean 4 proof: kernel evaluation of the moment conditions on the weight tables REGENERATED from the source; polynomial exactness from the moment conditions (Taylor expansion, Mathlib); Vandermonde inverse for the general weights; exact rational solve in the Lean driver compared with the implementation',
-        text='Theorems: every hard-coded table of derivative() (extracted from the AST on every run) satisfies sum w_k k^j = n! [j = n] for j < m (decide +kernel); for any weights meeting the moment conditions the stencil sum of every real polynomial of degree < m equals dx^n times its n-th derivative at every point and step; the general weights n! (V^-1)_n of centralDiffWeights meet the moment conditions for any distinct nodes, hence are exact too. centralDiffWeights is compared with an exact rational solution computed (and self-checked) in Lean; derivative / gradient / hessianMatrix are evaluated on random polynomials and quadratics, gramSchmidOrth on random full-rank matrices (orthonormality, first column, J A = B). Also proved: a partial derivative computed by the stencil along one coordinate is exact when the restriction is a polynomial of degree < m; the nested 3-point difference quotient of a quadratic form x^T A x equals A + A^T at every point and step (every dimension); the code-shaped Gram-Schmidt loops (sequential projection then normalisation, over any real inner-product space) return, for linearly independent inputs, an orthonormal list of the same length and span whose first element is the normalised first input; J = B A^-1 satisfies J A = B. Not modelled: the column-swap pre-loop for an alignment vector parallel to a later column (excluded by the property's hypothesis).',
+        text='Theorems: every hard-coded table of derivative() (extracted from the AST on every run) satisfies sum w_k k^j = n! [j = n] for j < m (decide +kernel); for any weights meeting the moment conditions the stencil sum of every real polynomial of degree < m equals dx^n times its n-th derivative at every point and step; the general weights n! (V^-1)_n of centralDiffWeights meet the moment conditions for any distinct nodes, hence are exact too. centralDiffWeights is compared with an exact rational solution computed (and self-checked) in Lean; derivative / gradient / hessianMatrix are evaluated on random polynomials and quadratics, gramSchmidOrth on random full-rank matrices (orthonormality, first column, J A = B). Also proved: a partial derivative computed by the stencil along one coordinate is exact when the restriction is a polynomial of degree < m; the nested 3-point difference quotient of a quadratic form x^T A x equals A + A^T at every point and step (every dimension); the code-shaped Gram-Schmidt loops (sequential projection then normalisation, over any real inner-product space) return, for linearly independent inputs, an orthonormal list of the same length and span whose first element is the normalised first input; J = B A^-1 satisfies J A = B. Not modelled: the column-swap pre-loop for an alignment vector parallel to a later column (excluded by the hypothesis of the property).',
         note='Trusted: Lean kernel + standard axioms + Mathlib; the table extractor in harness/translate.py; scipy.linalg.inv and numpy.linalg are external (results compared, not proved); rounding: comparisons at 1e-9 relative on dyadic points and steps.',
         ref='§5 C20'),
     'C14': dict(
